@@ -1021,8 +1021,65 @@ func (h *supH) directedProbeFatal(emit func(string)) {
 	}
 }
 
+// directedShutdownCoverage: a shutdown (ordered and unordered) must cover every running process,
+// also one that is disabled in the configuration and was started by a request; and, ordered, a
+// process is stopped only after each of its dependents is gone - also when another dependent that
+// sits "in between" (triangle: top -> mid -> base, top -> base) ends by itself during the shutdown.
+func (h *supH) directedShutdownCoverage(emit func(string)) {
+	finish := func() {
+		for i := 0; i < 10 && !h.dead; i++ {
+			al := h.aliveNames()
+			if len(al) == 0 {
+				break
+			}
+			emit(fmt.Sprintf("s exit %s 0", al[0]))
+			h.drain(emit)
+		}
+		if len(h.aliveNames()) == 0 && len(h.enabledKeys()) == 0 {
+			emit("end quiescent")
+		} else {
+			emit("end limit")
+		}
+	}
+	for _, ordered := range []int{0, 1} {
+		emit(fmt.Sprintf("sup coarse %d", ordered))
+		emit("proc a no 0 x 0 0 143 -")
+		emit("proc b no 0 - 0 0 143 -")
+		emit("init")
+		emit("s call 0 run")
+		h.drain(emit)
+		emit("s call 1 start a")
+		h.drain(emit)
+		emit("s call 2 shutdown")
+		h.drain(emit)
+		finish()
+	}
+	for _, midEnds := range []bool{true, false} {
+		emit("sup coarse 1")
+		emit("proc base no 0 - 0 0 143 -")
+		emit("proc mid no 0 - 0 0 143 base:t")
+		emit("proc top no 0 - 40 0 ign mid:t,base:t")
+		emit("deps mid base:t")
+		emit("deps top mid:t,base:t")
+		emit("init")
+		emit("s call 0 run")
+		h.drain(emit)
+		emit("s call 1 shutdown")
+		// everything that can run: top is signalled and ignores it (kill timer armed), mid and base wait
+		h.drain(emit)
+		if midEnds {
+			emit("s exit mid 0")
+			h.drain(emit)
+		}
+		emit("s killto top")
+		h.drain(emit)
+		finish()
+	}
+}
+
 func (h *supH) Gen(r *rand.Rand, tier string, emit func(string)) {
 	h.directed(emit)
+	h.directedShutdownCoverage(emit)
 	h.directedProbeFatal(emit)
 	h.directedManual(emit)
 	h.directedExit(emit)
